@@ -235,7 +235,10 @@ func checkC08(e *RunEnv) *CheckResult {
 		Seeds: []Seed{{"S2", seedS2()}, {"S3", seedS3()}, {"chain12", seedChain(12)}, {"S4", seedS4()},
 			{"percent-dir", append(seedS1(), Write("p%sq/x", "x v1\n"), Write("é/y z", "y\n"), Run("add", "p%sq", "é"), Run("commit", "-m", "c2"), Write("p%sq/x", "x v2\n"), Run("add", "p%sq"), Run("commit", "-m", "c3"))},
 			{"new-dir-later", append(seedS1(), Write("d2/p", "p\n"), Write("d2/q/r", "r\n"), Run("add", "d2"), Run("commit", "-m", "c2 introduces d2"), Write("d2/never-tracked", "nt\n"), Write("d2/q/never-tracked", "nt\n"))},
-			{"deep-dir", append(seedS1(), Write("lib/core/util/a.txt", "a1\n"), Write("lib/z.txt", "z1\n"), Write("lib/empty", ""), Write("lib/core/__init__", ""), Write("empty-top", ""), Run("add", "lib", "empty-top"), Run("commit", "-m", "c2"), Write("lib/core/util/a.txt", "a2\n"), Run("add", "lib"), Run("commit", "-m", "c3"))}},
+			{"deep-dir", append(seedS1(), Write("lib/core/util/a.txt", "a1\n"), Write("lib/z.txt", "z1\n"), Write("lib/empty", ""), Write("lib/core/__init__", ""), Write("empty-top", ""), Run("add", "lib", "empty-top"), Run("commit", "-m", "c2"), Write("lib/core/util/a.txt", "a2\n"), Run("add", "lib"), Run("commit", "-m", "c3"))},
+			// sibling directories whose names extend one another and sort before "<dir>/" ("lib-old/", "lib.d/" < "lib/"):
+			// a restore of lib/ after the others were created must still create lib/ (seeded change C08-r8m1)
+			{"sibling-dirs", append(seedS1(), Write("lib-old/x.txt", "x1\n"), Write("lib.d/w", "w1\n"), Write("lib/y.txt", "y1\n"), Write("lib/zz/z", "z1\n"), Run("add", "lib-old", "lib.d", "lib"), Run("commit", "-m", "c2"), Write("lib/y.txt", "y2\n"), Run("add", "lib"), Run("commit", "-m", "c3"))}},
 		Depth: e.depth(3, 5),
 		Steps: func(n *Node) []Step {
 			a := n.Abs()
@@ -292,6 +295,10 @@ func checkC08(e *RunEnv) *CheckResult {
 				}
 				if hasDirOnDisk(a, "lib") {
 					steps = append(steps, Rmdir("lib"))
+				}
+				// a directory and a sibling whose name extends it are both gone: the restore creates "lib-old/" first, then "lib/"
+				if hasDirOnDisk(a, "lib") && hasDirOnDisk(a, "lib-old") {
+					steps = append(steps, Seq(Rmdir("lib-old"), Rmdir("lib")))
 				}
 				// the tracked file a replaced by a directory that holds a never-tracked file
 				if _, ok := a.W["a"]; ok {
